@@ -5,7 +5,7 @@
    index, unwrap); error 99 (L_FUEL / E_FUEL) is "the model's fuel ran out",
    i.e. an unbounded loop. *)
 From Erbium Require Import Lib.Base Model.DhcpCodec Model.DhcpOptVal Model.Lldp
-  Proofs.Total Proofs.DhcpOptVal Proofs.Lldp Proofs.Folds.
+  Proofs.Total Proofs.DhcpOptVal Proofs.Lldp Proofs.Folds Proofs.LldpWf.
 
 (* ---- LLDP ---------------------------------------------------------------- *)
 (* whatever octets arrive on the raw socket, handling the frame (Ethernet-header
@@ -132,3 +132,18 @@ Check C05_int_fold_values : forall v : list N, bytes_ok v = true ->
   parse_u16 v = Ok (be_decode v mod 2 ^ 16) /\ parse_u32 v = Ok (be_decode v mod 2 ^ 32) /\
   parse_u64 v = Ok (be_decode v mod 2 ^ 64) /\ parse_i32 v = Ok (be_decode v mod 2 ^ 32).
 Print Assumptions C05_int_fold_values.
+
+(* a frame carrying well-formed TLVs and the End TLV (anything may follow) is
+   decoded to exactly those TLVs -- so "still answers" is about a large class *)
+Theorem C05_lldp_wf_frame_decodes : forall (hdr : list N) (ts : list tlv) (junk : list N),
+  length hdr = 14%nat -> wf_tlvs ts = true ->
+  lldp_handle_frame (hdr ++ flat_map tlv_wire ts ++ [0; 0] ++ junk) = Ok (ts ++ [TEnd]).
+Proof. exact lldp_wf_frame_decodes. Qed.
+Check C05_lldp_wf_frame_decodes : forall (hdr : list N) (ts : list tlv) (junk : list N),
+  length hdr = 14%nat -> wf_tlvs ts = true ->
+  lldp_handle_frame (hdr ++ flat_map tlv_wire ts ++ [0; 0] ++ junk) = Ok (ts ++ [TEnd]).
+Print Assumptions C05_lldp_wf_frame_decodes.
+Example C05_wf_tlvs_satisfiable :
+  wf_tlvs [TChassis 4 [0; 25; 47; 167; 178; 141]; TPort 1 [85; 112]; TTtl 120; TStr 5 [83; 50];
+           TCap 20 4; TOrg [0; 18; 15] 1 [3; 192]; TUnknown 85 [66]] = true.
+Proof. reflexivity. Qed.
